@@ -346,6 +346,18 @@ MUTANTS += [
     B("c15-updates-get-swapped-arguments", "C15", MMSBM, "self._w_update(binary_incidence, hye_weights)", "self._w_update(hye_weights, binary_incidence)", "G-ARGSWAP"),
 ]
 
+# ---------------------------------------------------------------------- rules of seed round sd
+MUTANTS += [
+    # F-USE keep_isolated:all-nodes
+    B("c10-keep-isolated-only-degree-zero", "C10", PROJ, "        for node in h.get_nodes():\n            g.add_node(node)\n", "        for node in h.get_nodes():\n            if h.degree(node) == 0:\n                g.add_node(node)\n", "F-USE"),
+    # Y-DYADONCE: De Morgan slip on the guard of the fixed hyperedges
+    B("c16-fixed-pairs-when-one-sequence-given", "C16", SAMP, "        if sample_deg_seq and sample_dim_seq and self.exact_dyadic_sampling:", "        if (sample_deg_seq or sample_dim_seq) and self.exact_dyadic_sampling:", "Y-DYADONCE"),
+    # P-ACCUM whatever-the-metadata (Hypergraph.add_edge)
+    B("c01-merge-skipped-when-metadata-given", "C01", H, "            if self._weighted:\n                self._weights[self._edge_list[edge]] += weight\n            if metadata is not None:\n", "            if metadata is None and self._weighted:\n                self._weights[self._edge_list[edge]] += weight\n            if metadata is not None:\n", "P-ACCUM"),
+    # E-LIVEITER from C07
+    B("c07-directed-remove-node-walks-live-list", "C07", D, "            target_edges = self.get_target_edges(node)\n            source_edges = self.get_source_edges(node)\n            for edge in source_edges:\n                self.remove_edge(edge)\n            for edge in target_edges:\n                self.remove_edge(edge)\n", "            for e_idx in self._adj_source[node]:\n                self.remove_edge(self._reverse_edge_list[e_idx])\n            for e_idx in self._adj_target[node]:\n                self.remove_edge(self._reverse_edge_list[e_idx])\n", "E-LIVEITER"),
+]
+
 
 def for_property(prop: str) -> List[Mutant]:
     return [m for m in MUTANTS if m.prop == prop]
